@@ -387,6 +387,74 @@ def _match_patterns(g, fx, mv_node, frame, depth=0):
     return pats
 
 
+def _cut_at_cursor(e, g, fx, n, modname):
+    """`self.recv_buffer = data[pos:]` with `data` the buffer as it was on
+    entry and `pos` a local that is 0 or the end of a successful match of a
+    whole-line pattern against `data`: names of the patterns, else None"""
+    v = n.ast.value
+    if not (isinstance(v, ast.Subscript) and isinstance(v.value, ast.Name)
+            and isinstance(v.slice, ast.Slice) and v.slice.upper is None and
+            v.slice.step is None and isinstance(v.slice.lower, ast.Name)):
+        return None
+    fr = n.frame
+    dp, pp = path_of(v.value, fr), path_of(v.slice.lower, fr)
+
+    def defs_of(q):
+        return [s for s in g.of_kind('stmt') if s.frame is fr and
+                isinstance(s.ast, (ast.Assign, ast.AugAssign)) and any(
+                    path_of(x, s.frame) == q
+                    for t in (s.ast.targets if isinstance(s.ast, ast.Assign)
+                              else [s.ast.target])
+                    for x in ast.walk(t) if isinstance(x, ast.Name))]
+    dd = {id(s.ast): s for s in defs_of(dp)}
+    if len(dd) != 1:
+        return None
+    d0 = next(iter(dd.values())).ast
+    if not (isinstance(d0, ast.Assign) and
+            path_of(d0.value, fr) == 'self.recv_buffer'):
+        return None
+    pats = set()
+    pdefs = defs_of(pp)
+    if not pdefs:
+        return None
+    for s in pdefs:
+        a = s.ast
+        if not (isinstance(a, ast.Assign) and len(a.targets) == 1 and
+                isinstance(a.targets[0], ast.Name)):
+            return None
+        pv = a.value
+        if isinstance(pv, ast.Constant) and pv.value == 0 and \
+                not isinstance(pv.value, bool):
+            continue
+        if not (isinstance(pv, ast.Call) and
+                isinstance(pv.func, ast.Attribute) and pv.func.attr == 'end'
+                and isinstance(pv.func.value, ast.Name) and
+                not pv.keywords and len(pv.args) <= 1 and all(
+                    isinstance(x, ast.Constant) and x.value == 0
+                    for x in pv.args)):
+            return None
+        mq = path_of(pv.func.value, fr)
+        st = fx.at(s)
+        if not (holds(st, (True, mq)) or holds(st, (False, mq + ' is None'))):
+            return None
+        mdefs = defs_of(mq)
+        if not mdefs:
+            return None
+        for md in mdefs:
+            mvv = md.ast.value if isinstance(md.ast, ast.Assign) else None
+            if not (isinstance(mvv, ast.Call) and
+                    isinstance(mvv.func, ast.Attribute) and
+                    mvv.func.attr == 'match' and
+                    isinstance(mvv.func.value, ast.Name) and mvv.args and
+                    path_of(mvv.args[0], fr) == dp):
+                return None
+            pats.add(mvv.func.value.id)
+    if not pats or not all(_regex_ends_in_newline(e, modname, pn) is True
+                           for pn in pats):
+        return None
+    return pats
+
+
 def g2(e: Engine, rep: Report, rule: str,
        meths=('recv_line', 'recv_reply')):
     for meth in meths:
@@ -448,6 +516,11 @@ def g2(e: Engine, rep: Report, rule: str,
                     if alt:
                         ok, nl = True, [True]
                         pats = {'partition(%r)' % alt}
+                    else:
+                        cur = _cut_at_cursor(e, g, fx, n,
+                                             ctx.func.module.name)
+                        if cur:
+                            ok, nl, pats = True, [True], cur
             rep.check(ok and nl and all(x is True for x in nl), rule, where,
                       'consumption `%s`' % n.text(50),
                       'bytes are removed from recv_buffer without a '
